@@ -105,6 +105,7 @@ typedef struct {
     char mode;                                        /* x exact, a arena, f full text (arena of BIG bytes) */
     const unsigned char * full; size_t fulln;         /* full text of the group (fmt apis) */
     const char * ref; size_t L; int bd;                                 /* reference length of the canonical text (integers); boundary-set member */
+    int huge;                                         /* the length passed is 2^31 or more (a mapped region); recorded as len = 300 (every length above the text is equivalent) */
 } call_t;
 
 static scpi_t ctx;
@@ -185,7 +186,7 @@ static size_t lastoutn;
 static int do_call(const call_t * c) {
     unsigned salt;
     unsigned char * base, * buf;
-    size_t len = c->len, ret = 0, n, i, firstnul;
+    size_t len = c->len, passlen = c->len, ret = 0, n, i, firstnul;
     int arena = c->mode != 'x', ok = 1, rp = 1;
     char rec[4096];
     size_t rn;
@@ -200,7 +201,15 @@ static int do_call(const call_t * c) {
     sh->cur = idx;
     sh->ncalls++;
 
-    if (arena) {
+    if (c->huge) {
+        static const size_t hl[3] = {(size_t) 1 << 31, (size_t) 1 << 32, ((size_t) 1 << 31) + 77};
+        passlen = hl[idx % 3];
+        base = mmap(NULL, passlen + 4096, PROT_READ | PROT_WRITE, MAP_PRIVATE | MAP_ANONYMOUS | MAP_NORESERVE, -1, 0);
+        if (base == MAP_FAILED) return 0;
+        buf = base;
+        memset(buf, FILL, len);
+        arena = 0;
+    } else if (arena) {
         long k;
         base = malloc(PRE + len + POST + 1);
         buf = base + PRE;
@@ -219,17 +228,17 @@ static int do_call(const call_t * c) {
     if (!base) { fprintf(stderr, "malloc failed\n"); _exit(4); }
 
     if (c->w == 32) {
-        if (!strcmp(c->api, "i32")) ret = SCPI_Int32ToStr((int32_t) (uint32_t) c->v, (char *) buf, len);
-        else if (!strcmp(c->api, "u32")) ret = SCPI_UInt32ToStrBase((uint32_t) c->v, (char *) buf, len, (int8_t) c->base);
-        else ret = UInt32ToStrBaseSign((uint32_t) c->v, (char *) buf, len, (int8_t) c->base, c->sign ? TRUE : FALSE);
+        if (!strcmp(c->api, "i32")) ret = SCPI_Int32ToStr((int32_t) (uint32_t) c->v, (char *) buf, passlen);
+        else if (!strcmp(c->api, "u32")) ret = SCPI_UInt32ToStrBase((uint32_t) c->v, (char *) buf, passlen, (int8_t) c->base);
+        else ret = UInt32ToStrBaseSign((uint32_t) c->v, (char *) buf, passlen, (int8_t) c->base, c->sign ? TRUE : FALSE);
     } else if (c->w == 64) {
-        if (!strcmp(c->api, "i64")) ret = SCPI_Int64ToStr((int64_t) c->v, (char *) buf, len);
-        else if (!strcmp(c->api, "u64")) ret = SCPI_UInt64ToStrBase(c->v, (char *) buf, len, (int8_t) c->base);
-        else ret = UInt64ToStrBaseSign(c->v, (char *) buf, len, (int8_t) c->base, c->sign ? TRUE : FALSE);
+        if (!strcmp(c->api, "i64")) ret = SCPI_Int64ToStr((int64_t) c->v, (char *) buf, passlen);
+        else if (!strcmp(c->api, "u64")) ret = SCPI_UInt64ToStrBase(c->v, (char *) buf, passlen, (int8_t) c->base);
+        else ret = UInt64ToStrBaseSign(c->v, (char *) buf, passlen, (int8_t) c->base, c->sign ? TRUE : FALSE);
     } else if (!strcmp(c->api, "dbl")) {
-        ret = SCPI_DoubleToStr(c->d, (char *) buf, len);
+        ret = SCPI_DoubleToStr(c->d, (char *) buf, passlen);
     } else if (!strcmp(c->api, "flt")) {
-        ret = SCPI_FloatToStr((float) c->d, (char *) buf, len);
+        ret = SCPI_FloatToStr((float) c->d, (char *) buf, passlen);
     } else if (!strcmp(c->api, "num")) {
         scpi_number_t num;
         memset(&num, 0, sizeof num);
@@ -237,9 +246,9 @@ static int do_call(const call_t * c) {
         if (c->special) num.content.tag = c->tag; else num.content.value = c->d;
         num.unit = (scpi_unit_t) c->unit;
         num.base = (c->special || (idx % 3)) ? 10 : ((idx % 9 == 0) ? 16 : (idx % 9 == 3) ? 8 : 2);      /* the base a #H / #Q / #B parameter leaves in the number: the text stays decimal */
-        ret = SCPI_NumberToStr(&ctx, scpi_special_numbers_def, &num, (char *) buf, len);
+        ret = SCPI_NumberToStr(&ctx, scpi_special_numbers_def, &num, (char *) buf, passlen);
     } else if (!strcmp(c->api, "dtostre")) {
-        char * r = SCPI_dtostre(c->d, (char *) buf, len, (unsigned char) c->prec, (unsigned char) c->flags);
+        char * r = SCPI_dtostre(c->d, (char *) buf, passlen, (unsigned char) c->prec, (unsigned char) c->flags);
         rp = (r == (char *) buf);
         for (ret = 0; ret < len && buf[ret]; ret++) {}        /* no length is returned: the text is what is in the buffer */
     } else if (!strcmp(c->api, "copyfail")) {
@@ -282,6 +291,7 @@ static int do_call(const call_t * c) {
         rn += (size_t) snprintf(rec + rn, sizeof rec - rn, "]}\n");
         emit(rec, rn);
     }
+    if (c->huge) { munmap(base, passlen + 4096); return 1; }
     if (!arena && !len) ASAN_UNPOISON_MEMORY_REGION(base, 1);
     free(base);
     if ((sh->ncalls & 1023) == 0) alarm(6);       /* a single conversion takes microseconds: a call that runs for seconds hangs */
@@ -320,6 +330,10 @@ static void over_lens(call_t * c, size_t L) {
     if (nover++ % 16 == 0) {          /* buffers of more than 255 bytes (a length kept in one byte would wrap) */
         static const size_t bigl[] = {255, 256, 257, 300, 512};
         for (l = 0; l < 5; l++) { c->len = bigl[l]; both_modes(c); }
+    }
+    if (nover % 48 == 7 && (c->w || !strcmp(c->api, "dbl") || !strcmp(c->api, "flt"))) {
+        /* a buffer of 2 GiB and more (its length does not fit an int) */
+        c->huge = 1; c->len = 300; c->mode = 'x'; do_call(c); c->huge = 0;
     }
     if (lens_all) {
         for (l = 0; l <= maxlen; l++) { c->len = l; both_modes(c); }
